@@ -237,8 +237,14 @@ def eval_case(case, drv):
         detail["not_lazy"] = type(res.data).__name__
     else:
         for sched in ("synchronous", "threads"):
-            with dask.config.set(scheduler=sched):
-                got = res.compute()
+            try:
+                with dask.config.set(scheduler=sched):
+                    got = res.compute()
+            except Exception as e:  # noqa: BLE001  -- the in-memory call answered: failing at compute time is a violation
+                prop_ok = False
+                detail["compute_failed"] = {"scheduler": sched, "error": exc_kind(e) + ": " + str(e)[:160],
+                                            "chunks": case["chunks"]}
+                break
             if not same(got, eager[1]):
                 prop_ok = False
                 detail["values"] = {"scheduler": sched, "dims": [list(got.dims), list(eager[1].dims)],
